@@ -124,8 +124,8 @@ theorem C01_partial_tf (tf : Int) (htf : 0 < tf) (fill : Bool) (k : Kind F) (nam
 
 /-- **C01, partial: all covered TREES** (`CoveredTree`: every leaf class and the composite kinds
 whose refinement is proved – the data-series kinds VWAP, STDEV, RSI, ATR with its prior TR
-helper, KC with its ATR and EMA helpers, STDEVTHRES and BBANDS with their STDEV / SMA helpers),
-base timeframe.  If the
+helper, KC with its ATR and EMA helpers, STDEVTHRES and BBANDS with their STDEV / SMA helpers,
+Supertrend with ATR / HLA helpers and its own data series), base timeframe.  If the
 live history returns, the batch run returns the same candles: OHLCV, stamps, the node's readings
 and its helper series. -/
 theorem C01_trees_base (k : Kind F) (name : String) (round : Nat) (hk : CoveredTree name k)
@@ -183,9 +183,13 @@ structure WellFormed (xs : List (Candle F)) : Prop where
 `mkTop`), every parameter choice with positive periods, base or collapsing timeframe, with or
 without gap filling, every construction prefix and append schedule.
 NOT proved yet.  Missing: (i) inputs that are other indicators' readings (here: candle
-attributes only, the stream being raw); (ii) the framework refinement for the composite kinds
-not in `CoveredTree` (see `C01_trees` for those that are), where ADX is known to violate the
-statement (see known_findings).  (Timeframes and gap filling are done: `schedule_independent_leaf_tf`,
+attributes only, the stream being raw); (ii) the five composite kinds not in `CoveredTree`:
+MACD, STOCH, HMA, TSI, ADX – their `_calculate_reading` drives indicator-type managed children
+(`calculate_index(i)` of a child inside the parent's step; `Managed` children with non-prior
+sub-indicators; the `start_index and end_index` fallback to a full `calculate()` at index 0), which
+the component calculus of HexProofs/Framework/Gen/Comp.lean (column-major passes of prior helpers)
+does not cover; ADX is known to violate the statement (see known_findings).  Covered
+(`C01_trees`): all 14 leaf classes, VWAP, STDEV, RSI, ATR, KC, STDEVTHRES, BBANDS, Supertrend.  (Timeframes and gap filling are done: `schedule_independent_leaf_tf`,
 `schedule_independent_leaf_fill`.)
 Note that with a timeframe the statement can only hold for histories that run: a reading on the
 still-forming bucket may raise where the batch run does not; so the full statement is about
@@ -265,6 +269,15 @@ example : (match candlesOf (runIndicator (mkTop (.bbands 2 "close") "BB_2" 4) {}
     | .ok cs => cs.map (fun c => ((dlookup "BB_2" c.inds).isSome, (c.subs.map (·.1))))
     | .error _ => []) = [(true, ["BB_2_STDEV_data", "BB_2_STDEV", "BB_2_SMA"]), (true, ["BB_2_STDEV_data", "BB_2_STDEV", "BB_2_SMA"]),
       (true, ["BB_2_STDEV_data", "BB_2_STDEV", "BB_2_SMA"]), (true, ["BB_2_STDEV_data", "BB_2_STDEV", "BB_2_SMA"])] := by
+  decide +kernel
+/-- Supertrend: ATR tree + HLA helper + own `_data` series – six keys per candle -/
+example : CoveredTree (F := Int) "ST_2" (.supertrend 2 "close" (.int 3)) :=
+  .supertrend 2 "close" _ (by decide) ⟨by decide, by decide, by decide, by decide, by decide, by decide,
+    by decide, by decide, by decide, by decide, by decide, by decide, by decide, by decide, by decide, by decide⟩
+example : (match candlesOf (runIndicator (mkTop (.supertrend 2 "close" (.int 3)) "ST_2" 4) {} [] [demo.take 1, demo.drop 1]) with
+    | .ok cs => cs.map (fun c => ((dlookup "ST_2" c.inds).isSome, (c.subs.map (·.1))))
+    | .error _ => []) = [(true, ["ST_2_atr_TR", "ST_2_atr", "ST_2_HL"]), (true, ["ST_2_atr_TR", "ST_2_atr", "ST_2_HL"]),
+      (true, ["ST_2_atr_TR", "ST_2_atr", "ST_2_HL", "ST_2_data"]), (true, ["ST_2_atr_TR", "ST_2_atr", "ST_2_HL", "ST_2_data"])] := by
   decide +kernel
 /-- VWAP over the demo, live = batch, with its `VWAP_3_data` helper series written on every candle -/
 example : (match candlesOf (runIndicator (mkTop (.vwap 3) "VWAP_3" 4) {} [] [demo.take 1, demo.drop 1]) with
